@@ -1155,7 +1155,9 @@ impl ObjFiber {
             self.open_upvalues = {
                 let mut borrowed_upvalue = upvalue.borrow_mut();
                 borrowed_upvalue.close();
-                borrowed_upvalue.next
+                // A closed upvalue is no longer part of the list: left in place, the link would keep
+                // the variables below it alive for as long as this one is.
+                borrowed_upvalue.next.take()
             };
         }
     }
